@@ -18,6 +18,7 @@ import (
 	"fmt"
 	"io"
 	"math/rand"
+	"os"
 	"sort"
 	"strings"
 	"sync"
@@ -62,6 +63,7 @@ type csLabel struct {
 	Reads int        `json:"reads"`
 	Cbs   [][]string `json:"cbs"`
 	V     []string   `json:"v,omitempty"`
+	Cs    []string   `json:"cs,omitempty"` // SendMail: the peer's replies to the successive commands after the hello
 }
 
 type csEdge struct {
@@ -72,6 +74,7 @@ type csEdge struct {
 
 	src, dst string
 	covered  bool
+	ran      bool
 	tries    int
 }
 
@@ -95,14 +98,15 @@ type csFake struct {
 	lmtp  bool
 	dec   csDec
 	v     []string
+	cs    []string
 	lines []string // received since mark()
 	extra []string // lines for which no decision was current
 	body  []byte
 }
 
-func (f *csFake) set(d csDec, v []string) {
+func (f *csFake) set(d csDec, v []string, cs []string) {
 	f.mu.Lock()
-	f.dec, f.v = d, v
+	f.dec, f.v, f.cs = d, v, append([]string{}, cs...)
 	f.lines, f.extra = nil, nil
 	f.mu.Unlock()
 }
@@ -145,6 +149,11 @@ func (f *csFake) serve() {
 		f.mu.Lock()
 		d, v := f.dec, f.v
 		f.lines = append(f.lines, line)
+		if !strings.HasPrefix(up, "EHLO") && !strings.HasPrefix(up, "LHLO") && !strings.HasPrefix(up, "HELO") && len(f.cs) > 0 {
+			// a call that writes several commands: one decision per command
+			d.C = f.cs[0]
+			f.cs = f.cs[1:]
+		}
 		f.mu.Unlock()
 		unexpected := func() {
 			f.mu.Lock()
@@ -338,6 +347,12 @@ func (c *csConn) call(l *csLabel) (string, bool) {
 				c.w.Write([]byte("x\r\n"))
 			}
 			res <- csErrClass(c.w.Close())
+		case "SendMail":
+			var to []string
+			for _, a := range l.Args {
+				to = append(to, csAddr(a))
+			}
+			res <- csErrClass(c.cl.SendMail("s@x.test", to, strings.NewReader("x\r\n")))
 		case "Close":
 			c.cl.Close()
 			res <- "any"
@@ -428,7 +443,7 @@ func csProj(cl *smtp.Client) (g, h string, ext []string, name string, rcpts []st
 // step executes one edge and returns a description of the first difference.
 func (c *csConn) step(e *csEdge) (what, field string) {
 	l := &e.Lbl
-	c.fake.set(l.Dec, l.V)
+	c.fake.set(l.Dec, l.V, l.Cs)
 	if l.Dec.G != "-" {
 		c.fake.greet(l.Dec.G)
 	}
@@ -457,6 +472,11 @@ func (c *csConn) step(e *csEdge) (what, field string) {
 		}
 		if got := string(c.fake.body); len(l.Lines) == 1 && got != "x\r\n" {
 			return fmt.Sprintf("the peer received the message %q, written \"x\\r\\n\"", got), "body"
+		}
+	}
+	if l.Call == "SendMail" && len(l.Lines) > 0 && l.Lines[len(l.Lines)-1][0] == "BODY" {
+		if got := string(c.fake.body); got != "x\r\n" {
+			return fmt.Sprintf("SendMail: the peer received the message %q, given \"x\\r\\n\"", got), "body"
 		}
 	}
 	g, h, ext, name, rcpts := csProj(c.cl)
@@ -567,13 +587,16 @@ func csPropOf(field string, e *csEdge) []string {
 	if e.Lbl.Call == "WClose" {
 		return []string{"C16", "C18"}
 	}
+	if e.Lbl.Call == "SendMail" {
+		return []string{"C16", "C15", "C18"}
+	}
 	return []string{"C15"}
 }
 
 func csHistory(h []*csEdge) []string {
 	var out []string
 	for _, e := range h {
-		out = append(out, fmt.Sprintf("%s%v dec=%+v v=%v", e.Lbl.Call, e.Lbl.Args, e.Lbl.Dec, e.Lbl.V))
+		out = append(out, fmt.Sprintf("%s%v dec=%+v cs=%v v=%v", e.Lbl.Call, e.Lbl.Args, e.Lbl.Dec, e.Lbl.Cs, e.Lbl.V))
 	}
 	return out
 }
@@ -651,9 +674,7 @@ func csTour(run *evid.Run, g *csGraph, workers int, sample func(*csEdge) bool) c
 					what, field := c.step(e)
 					mu.Lock()
 					st.steps++
-					if !e.covered {
-						e.covered = true
-					}
+					e.covered, e.ran = true, true
 					mu.Unlock()
 					if field == "" {
 						cur = e.dst
@@ -684,7 +705,7 @@ func csTour(run *evid.Run, g *csGraph, workers int, sample func(*csEdge) bool) c
 	}
 	wg.Wait()
 	for _, e := range g.edges {
-		if e.covered {
+		if e.ran {
 			st.edges++
 		}
 	}
@@ -714,10 +735,12 @@ func csWalk(lmtp bool, rng *rand.Rand, steps int) []map[string]interface{} {
 		switch {
 		case dwOpen:
 			calls = []string{"WClose", "WClose", "WClose", "Close"}
+		case stuck && !hasWriter:
+			calls = []string{"Close"}
 		case stuck:
 			calls = []string{"WClose", "Close"}
 		default:
-			calls = []string{"Noop", "Verify", "Reset", "Quit", "Hello", "Extension", "Mail", "Mail", "Close", "BadArg"}
+			calls = []string{"Noop", "Verify", "Reset", "Quit", "Hello", "Extension", "Mail", "Mail", "SendMail", "Close", "BadArg"}
 			if greeted {
 				calls = append(calls, "Rcpt", "Rcpt", "Rcpt", "Data", "Data", "LMTPData")
 			}
@@ -726,13 +749,13 @@ func csWalk(lmtp bool, rng *rand.Rand, steps int) []map[string]interface{} {
 			}
 		}
 		l.Call = calls[rng.Intn(len(calls))]
-		if l.Call == "Close" && rng.Intn(4) != 0 {
+		if l.Call == "Close" && rng.Intn(4) != 0 && !(stuck && !hasWriter) {
 			l.Call = "Noop"
 			if dwOpen || stuck {
 				l.Call = "WClose"
 			}
 		}
-		if l.Call == "Mail" && txn {
+		if (l.Call == "Mail" || l.Call == "SendMail") && txn {
 			l.Call = "Rcpt" // discipline: no nested MAIL
 			if !greeted {
 				l.Call = "Noop"
@@ -750,6 +773,27 @@ func csWalk(lmtp bool, rng *rand.Rand, steps int) []map[string]interface{} {
 			l.Args = []string{pick("utf8", "ascii"), pick("size", "nosize")}
 		case "Rcpt":
 			l.Args = []string{pick("a", "b", "c", "d")}
+		case "SendMail":
+			l.Args = [][]string{{"a"}, {"a", "b"}}[rng.Intn(2)]
+			l.Cs = []string{pick("250", "250", "250", "550")}
+			for range l.Args {
+				l.Cs = append(l.Cs, pick("250", "250", "250", "550"))
+			}
+			l.Cs = append(l.Cs, pick("354", "354", "354", "554"))
+			n := 1
+			if lmtp {
+				n = len(l.Args)
+			}
+			for j := 0; j < n; j++ {
+				if lmtp {
+					l.V = append(l.V, pick("250", "250", "550", "421"))
+				} else {
+					l.V = append(l.V, pick("250", "554"))
+				}
+			}
+			if rng.Intn(12) == 0 {
+				l.V = []string{"stall"}
+			}
 		}
 		// decisions: chosen for every class of line the call might write
 		l.Dec.G = pick("220", "220", "220", "554")
@@ -797,7 +841,7 @@ func csWalk(lmtp bool, rng *rand.Rand, steps int) []map[string]interface{} {
 			}
 		}
 		greetingPending := !greeted && !closed
-		c.fake.set(l.Dec, l.V)
+		c.fake.set(l.Dec, l.V, l.Cs)
 		// the greeting is on the wire from the start in reality; here it is
 		// sent when the first call that can read it begins
 		sentGreeting := false
@@ -817,9 +861,16 @@ func csWalk(lmtp bool, rng *rand.Rand, steps int) []map[string]interface{} {
 		}
 		got, _ := c.fake.taken()
 		lines := [][]string{}
+		ci := 0
 		for _, x := range got {
 			t := csTokens(x)
 			lines = append(lines, t)
+			if len(l.Cs) > 0 && t[0] != "EHLO" && t[0] != "LHLO" && t[0] != "HELO" && t[0] != "BODY" {
+				if ci < len(l.Cs) {
+					l.Dec.C = l.Cs[ci]
+				}
+				ci++
+			}
 			// the peer's view follows what it answered
 			switch t[0] {
 			case "EHLO", "LHLO":
@@ -843,7 +894,7 @@ func csWalk(lmtp bool, rng *rand.Rand, steps int) []map[string]interface{} {
 					txn, list = false, nil
 				}
 			case "DATA":
-				if l.Dec.C == "354" {
+				if l.Dec.C == "354" && l.Call != "SendMail" {
 					dwOpen, hasWriter = true, true
 				}
 			case "BODY":
@@ -894,16 +945,36 @@ func clientSessionEngine(run *evid.Run, tier string) map[string]interface{} {
 		graphs[i] = loadCsGraph(f)
 	}
 	for i := range graphs {
+		if os.Getenv("VERIF_CS_SKIP_TOURS") != "" {
+			break // development aid
+		}
 		wg.Add(1)
 		go func(i int) {
 			defer wg.Done()
 			n := 0
 			stats[i] = csTour(run, graphs[i], 8, func(e *csEdge) bool {
 				n++
-				if tier == "thorough" || len(e.Lbl.V) != 1 || e.Lbl.V[0] != "stall" {
+				if tier == "thorough" {
 					return true
 				}
-				return (int64(n)+seed)%3 == 0 // a third of the time-out edges in the quick tier
+				rot := func(k int64) bool { return (int64(n)+seed)%k == 0 }
+				if len(e.Lbl.V) == 1 && e.Lbl.V[0] == "stall" {
+					return rot(3) // a third of the time-out edges in the quick tier
+				}
+				// quick tier: the calls that carry this property's clauses are toured
+				// completely, the others are sampled (and still executed on the way)
+				core := map[string]map[string]int64{
+					"C15": {"Mail": 1, "Hello": 1, "Reset": 1, "Rcpt": 1, "SendMail": 4},
+					"C16": {"WClose": 1, "Data": 1, "LMTPData": 1, "Close": 1, "SendMail": 2},
+					"C18": {"WClose": 1, "LMTPData": 1, "Data": 1, "Rcpt": 1, "Mail": 2, "Reset": 1, "SendMail": 2},
+				}[run.Prop]
+				if run.Prop == "C18" && !e.Lmtp {
+					return rot(8)
+				}
+				if k, ok := core[e.Lbl.Call]; ok {
+					return rot(k)
+				}
+				return rot(6)
 			})
 		}(i)
 	}
